@@ -220,6 +220,20 @@ func init() {
 		case "Blocked":
 			id := p.intArg(a[0])
 			return p.tt.Bool(p.threads[id].state == stBlocked), true
+		case "EagerOffsets":
+			p.eagerOffsets = a[0].(*Term).val != 0
+			return nil, true
+		case "SleepBlocks":
+			p.sleepBlocks = a[0].(*Term).val != 0
+			return nil, true
+		case "WakeSleepers":
+			for _, t := range p.threads {
+				if t.sleeping {
+					t.sleeping = false
+				}
+			}
+			p.wake(sleepTok)
+			return nil, true
 		case "ExpectDeadlock":
 			p.deadlockKnown = p.strArg(a[0])
 			return nil, true
